@@ -20,6 +20,8 @@ verdict = the property oracle on the implementation's answer:
   `encb <cells|ss> <caps> <cell>*\thex of the exact string the real producer wrote` — model = `VaxisModel.Model.SgrBytes.encodeCellsB / ssEncodeB`
   `decb <cells|ss> <style> <hex string> <cluster lengths per rune offset>\tcells` — model = `VaxisModel.Model.SgrBytes.parseStyledB /
    newStyledStringB` on the runes of the string (C02 automaton / own Cut-Split-Atoi), cluster oracle = the table.
+  `decbl <style> <hex url> <hex params> <hex string> <table>\tlcells` — `NewStyledString` with the hyperlink fields on the exact string, default
+   style carrying the given hyperlink: model = `VaxisModel.Model.SgrLinks.newStyledStringBL` (what `roundtrip_ss_links_full_bytes` is about).
 The string-level code used by `dec` (splitting on `;` / `:`, `strconv.Atoi`, decimal accumulation) is a second,
 independent transcription; the byte-level theorems (`Props/C18Bytes.lean`) are about the `SgrBytes` definitions. -/
 namespace VaxisModel.Driver.C18
@@ -275,6 +277,20 @@ def lcellB? (c : Cell G × String × String) : Option VaxisModel.Model.SgrLinks.
   | some g, some url, some ps => some ⟨⟨g, c.1.st⟩, ⟨url, ps⟩⟩
   | _, _, _ => none
 
+def lcellStrB (c : VaxisModel.Model.SgrLinks.LCell) : String :=
+  s!"{hexOfRunes c.cell.g}/{styleStr c.cell.st}/{hexOfRunes c.link.url}/{hexOfRunes c.link.params}"
+
+/-- `NewStyledString` with hyperlinks on an exact string (cluster oracle = the uniseg table of that string). -/
+def stepDecBL (dflt : Style) (url ps : String) (h : String) (table : String) (impl : String) : String :=
+  match runesOfHex? h, (if table = "-" then some [] else commaNats? table), runesOfHex? url, runesOfHex? ps with
+  | some rs, some tb, some u, some p =>
+    let n := rs.length
+    let cl : VaxisModel.Model.SgrBytes.Str → Nat := fun s => tb.getD (n - s.length) 1
+    let m := exStr (fun cs => if cs.isEmpty then "-" else " ".intercalate (cs.map lcellStrB))
+      (VaxisModel.Model.SgrLinks.newStyledStringBL cl dflt ⟨u, p⟩ rs)
+    s!"{m}\t{impl}\t{if impl = "panic" then "FAIL panic" else "ok"}"
+  | _, _, _, _ => "bad-op\tbad-op\tbad-op"
+
 def stepEncBL (which : String) (lcells : List (Cell G × String × String)) (impl : String) : String :=
   match lcells.mapM lcellB? with
   | none => "bad-op\tbad-op\tbad-op"
@@ -313,6 +329,10 @@ def step (line : String) : String :=
   | ["decb", which, dflt, h, table] =>
     match parseStyle? dflt with
     | some dflt => stepDecB which dflt h table impl
+    | none => "bad-op\tbad-op\tbad-op"
+  | ["decbl", dflt, url, ps, h, table] =>
+    match parseStyle? dflt with
+    | some dflt => stepDecBL dflt url ps h table impl
     | none => "bad-op\tbad-op\tbad-op"
   | "encbl" :: which :: cells =>
     match cells.mapM parseLCell? with
